@@ -21,7 +21,21 @@ F = Fraction
 
 
 class _Hooks(solverkit.StepHooks):
+    def tensor_attr(self, interp, recv, name, node, fi):
+        if name in ("dtype", "device"):
+            return f"{recv}.{name}"
+        if name == "shape":
+            return (nf.sym(f"{recv}.shape[0]", True), nf.sym(f"{recv}.shape[1]", True))
+        return solverkit.StepHooks.tensor_attr(self, interp, recv, name, node, fi)
+
+    def tensor_method(self, interp, recv, name, args, kwargs, node, fi):
+        if name in ik.BUFFER_METHODS:                 # an output tensor preallocated from the state
+            return ik.new_output_buffer(args[:1], dict(kwargs, dtype=kwargs.get("dtype", f"{recv}.dtype")))
+        return solverkit.StepHooks.tensor_method(self, interp, recv, name, args, kwargs, node, fi)
+
     def external_call(self, interp, dotted, args, kwargs, node, fi):
+        if dotted in ik.OUTPUT_BUFFER_CTORS:
+            return ik.new_output_buffer(args, kwargs)
         if dotted == "torch.stack":
             return Cat("stack", list(args[0]), kwargs.get("dim", F(0)))
         if dotted == "warnings.warn":
